@@ -1678,8 +1678,32 @@ impl HnswBackend {
         }
 
         let mut embedding = embedding;
-        let distance = self.index.read().distance_metric();
+        let (distance, normalization_check_disabled) = {
+            let index = self.index.read();
+            (index.distance_metric(), index.normalization_check_disabled())
+        };
         normalize_in_place_if_needed(distance, &mut embedding)?;
+
+        // Pre-flight the index's own acceptance checks BEFORE the WAL append. A vector that the
+        // index rejects after the append forces a compensating Delete entry, and on recovery that
+        // entry also erases the previously acknowledged version of the same document.
+        if embedding.iter().any(|v| !v.is_finite()) {
+            anyhow::bail!("embedding contains non-finite values");
+        }
+        if matches!(
+            distance,
+            DistanceMetric::Cosine | DistanceMetric::InnerProduct
+        ) && !normalization_check_disabled
+        {
+            let norm_sq = crate::simd::sum_squares_f32(&embedding);
+            if !(NORMALIZATION_NORM_SQ_MIN..=NORMALIZATION_NORM_SQ_MAX).contains(&norm_sq) {
+                anyhow::bail!(
+                    "{:?} requires L2-normalized vectors; norm_sq={}",
+                    distance,
+                    norm_sq
+                );
+            }
+        }
         let embedding_digest = digest_embedding(&embedding);
 
         let mut attempted_compaction = false;
